@@ -219,7 +219,7 @@ package engine
 //@ func (*socket).resetPingTimeout()
 //@   props C07
 //@   requires s != nil && s.server != nil
-//@   modifies s.pingTimeoutTimer
+//@   modifies s.pingTimeoutTimer, (*utils.Timer)(s.pingTimeoutTimer.v).timer.$active
 //@   ensures [C07.deadline] calls(utils.ClearTimeout) == 1 && calls(utils.SetTimeout) == 1 && before(utils.ClearTimeout, 1, utils.SetTimeout, 1) && arg(utils.ClearTimeout, 1, timer) == old(s.pingTimeoutTimer.v)
 //@   ensures [C07.deadline.duration] arg(utils.SetTimeout, 1, sleep) == (s.protocol == 3 ? s.server.Opts().PingInterval() + s.server.Opts().PingTimeout() : s.server.Opts().PingTimeout())
 //@   ensures [C07.deadline.stored] s.pingTimeoutTimer.v == ret(utils.SetTimeout, 1)
@@ -409,7 +409,7 @@ package engine
 //@ func (*socket).MaybeUpgrade.cleanup()
 //@   props C08
 //@   requires upgOK(s, transport)
-//@   modifies s.upgrading
+//@   modifies s.upgrading, (*utils.Timer)(checkIntervalTimer.v).timer.$active, (*utils.Timer)(upgradeTimeoutTimer.v).timer.$active
 //@   ensures [C08.cleanup.flag]   calls((*sync/atomic.Bool).Store) == 1 && !arg((*sync/atomic.Bool).Store, 1, val)
 //@   ensures [C08.cleanup.timers] calls(utils.ClearInterval) == 1 && calls(utils.ClearTimeout) == 1
 //@   ensures [C08.cleanup.listeners] old(transport) != nil ==> ncalls(types.EventEmitter.RemoveListener, this == iface(old(transport))) == 3
